@@ -1,7 +1,7 @@
 #!/bin/sh
 # usage: tools/confirm_seed.sh <PID> <mN>  -- confirms an agent's seeded change in its
 # scratch worktree /tmp/wt/<PID> and copies it to /verif/seeded/<PID>-<mN>/
-pid="$1"; m="$2"; WT=/tmp/wt/$pid; D=$WT/_demo/$m
+pid="$1"; m="$2"; WT=${WT:-/tmp/wt/$pid}; D=$WT/_demo/$m
 export PYTHONPATH=/tmp/wt/shim VERIF_REPO_SRC=$WT/src PYTHONDONTWRITEBYTECODE=1
 cd $WT || exit 2
 git checkout -q -- src
